@@ -1,13 +1,16 @@
 (** extraction of the C13 model: specifications (ModRingSpec) + 64-bit instance of the value-level as-is model
     (ModRingInst.v) + the second 64-bit instance (ModRingConvInst.v: multi-word rings on word lists with the real
-    kernels of C01 / C02, one- and two-word rings with num-modular as transcribed) *)
+    kernels of C01 / C02, one- and two-word rings with num-modular as transcribed) + (round 4) inverse / division of the
+    multi-word ring with the extended gcd of the source (gcd_ext_word / gcd_ext_dword transcribed, C12's as-is Lehmer
+    gcd_ext_in_place; ModRingLehmerInst.v) *)
 Require Import FastZ.
 From Dashu Require Import Base.Prelude Int.ModRingSpec Int.ModRingPowModel Int.ModRingModel Int.ModRingInst
-  Int.ModRingWords Int.ModRingConv Int.ModRingConvInst.
+  Int.ModRingWords Int.ModRingConv Int.ModRingConvInst Int.GrlLehmer Int.ModRingLehmer Int.ModRingLehmerInst Int.ModRingReducerWords.
 
 Extraction "model.ml"
   reduce_spec add_spec sub_spec mul_spec neg_spec dbl_spec sqr_spec powm inv_spec inv_ok div_spec
   bin_spec un_spec rd_check_spec
   run_reduce run_bin run_un run_pow run_pow_prefix run_inv run_eq
   run_rd run_rd_inv run_rd_check run_rd_modulus i_new r_shift r_kind
-  hrun_reduce hrun_bin hrun_un hrun_pow hrun_inv hrun_eq hrun_transform.
+  hrun_reduce hrun_bin hrun_un hrun_pow hrun_inv hrun_eq hrun_transform
+  hrun_inv_src hrun_div_src hrun_gcd_probe hrun_rd_lin.
